@@ -125,6 +125,12 @@ def discharge(ob, *, timeout_ms=10000, use_cvc5=True, cvc5_timeout_s=20):
     s.set("timeout", timeout_ms)
     for e in exprs:
         s.add(e)
+    if os.environ.get("PVC_DUMP"):
+        import hashlib
+
+        nm = hashlib.sha1((getattr(ob, "kind", "") + getattr(ob, "label", "") + str(getattr(ob, "path_id", ""))).encode()).hexdigest()[:10]
+        with open(os.path.join(os.environ["PVC_DUMP"], f"{nm}.smt2"), "w") as fh:
+            fh.write(f"; {getattr(ob, 'kind', '')} :: {getattr(ob, 'label', '')}\n" + s.to_smt2())
     r = s.check()
     dt = time.time() - t0
     if r == z3.unsat:
@@ -146,8 +152,16 @@ def discharge(ob, *, timeout_ms=10000, use_cvc5=True, cvc5_timeout_s=20):
         # retry with mbqi on (can prove some goals instantiation missed, and find real models)
         s2 = z3.Solver()
         s2.set("timeout", timeout_ms)
-        for e in exprs:
-            s2.add(e)
+        # the assertions go through their SMT-LIB text: term order and ids are normalised, which makes the
+        # instantiation-based proof search far more stable than on the incrementally built terms
+        try:
+            for e in z3.parse_smt2_string(s.to_smt2()):
+                s2.add(e)
+        except z3.Z3Exception:
+            s2 = z3.Solver()
+            s2.set("timeout", timeout_ms)
+            for e in exprs:
+                s2.add(e)
         r2 = s2.check()
         if r2 == z3.unsat:
             return dict(status="discharged", backend="z3-mbqi", seconds=time.time() - t0, model=None)
